@@ -149,8 +149,16 @@ func (e *C18) check1D(c *core.Ctx, x []float32, family string, atEnd bool) {
 		c.Rec.Violation(biteqKey(op, goOut, kname), fmt.Sprintf("assembly and portable %d-point kernels differ in lane %d: asm %.9g (%#08x) go %.9g (%#08x) [%s]", n, i, op[i], math.Float32bits(op[i]), goOut[i], math.Float32bits(goOut[i]), family), d)
 	}
 	// the kernel the package selected at init (what callers of ForwardDCT64/256 get)
-	dOut := append([]float32(nil), x...)
-	dispK(dOut)
+	// (on a guarded operand as well: a selected kernel that is the wrong one - the 256-point
+	// routine under the 64-point name - must fault on the guard page, not overrun a heap object
+	// and leave the worker with a corrupted heap)
+	gd := guardsFor(4 * n).pick(true)
+	dOut := gd.Float32s()
+	copy(dOut, x)
+	if ft := mon.CatchFault(func() { dispK(dOut) }); ft.Faulted || ft.Panic {
+		reportFault(c, ft, "exported ForwardDCT"+fmt.Sprint(n), map[string]*mon.Guard{"input": gd}, detail())
+		return
+	}
 	if i := bitsEq32(dOut, goOut); i >= 0 {
 		d := detail()
 		d["lane"] = i
@@ -748,14 +756,22 @@ func (e *C18) dispatch(c *core.Ctx, r *core.Rng) {
 		// the same with spare capacity behind the short slice (a sub-slice of a larger or pooled
 		// buffer): a slice expression would extend it silently - what lies behind its length is not
 		// the argument either
-		back := make([]float32, 2*k.n)
+		// (the backing array lies in a guarded region of its own, not on the Go heap: a kernel
+		// that overruns even the spare capacity faults on the guard page instead of corrupting the
+		// worker's heap)
+		g2 := mon.MustGuard(4*2*k.n, true, 0)
+		back := g2.Float32s()
 		for i := range back {
 			back[i] = float32(1000 + i)
 		}
 		ft = mon.CatchFault(func() { k.f(back[:short]) })
 		c.Rec.Eval(1)
 		c.Rec.Count("short_operand_calls", 1)
-		for i := short; i < len(back); i++ {
+		if ft.Faulted {
+			c.Rec.Violation("short:cap:"+k.name, fmt.Sprintf("%s on a slice of %d floats with capacity %d accessed memory behind the backing array", k.name, short, len(back)), map[string]any{"kernel": k.name, "len": short, "cap": len(back), "fault": ft.Text})
+		}
+		defer g2.Free()
+		for i := short; i < len(back) && !ft.Faulted; i++ {
 			if back[i] != float32(1000+i) {
 				c.Rec.Violation("short:cap:"+k.name, fmt.Sprintf("%s on a slice of %d floats with capacity %d wrote element %d, outside its argument (%v -> %v)", k.name, short, len(back), i, float32(1000+i), back[i]), map[string]any{"kernel": k.name, "len": short, "cap": len(back), "index": i})
 				break
